@@ -7,18 +7,21 @@ wt="$1"; x="$2"; shift; shift
 export GOFLAGS=-mod=mod GOPROXY=off GOSUMDB=off GOTOOLCHAIN=local
 cd "$wt" || exit 2
 git checkout -q -- . ; git clean -fdq -- pkg cmd 2>/dev/null
-demo_path=$(head -1 SEED_${x}_demo_test.go | sed -n 's|.*place at: *||p' | tr -d '\r ')
+mkdir -p _seed; for f in SEED_*; do [ -e "$f" ] && mv "$f" _seed/; done
+cd _seed; ln -sf ../pkg pkg 2>/dev/null; cd ..
+S=_seed
+demo_path=$(head -1 $S/SEED_${x}_demo_test.go | sed -n 's|.*place at: *||p' | tr -d '\r ')
 [ -z "$demo_path" ] && { echo "no demo path"; exit 2; }
-run_name=$(grep -o 'func Test[A-Za-z0-9_]*' SEED_${x}_demo_test.go | head -1 | sed 's/func //')
+run_name=$(grep -o 'func Test[A-Za-z0-9_]*' $S/SEED_${x}_demo_test.go | head -1 | sed 's/func //')
 pkgdir=$(dirname "$demo_path")
 # 1. demo passes on the original
-cp SEED_${x}_demo_test.go "$demo_path"
+cp $S/SEED_${x}_demo_test.go "$demo_path"
 if go test -vet=off -count=1 -run "^${run_name}\$" ./$pkgdir/ >/tmp/seed_eval_orig.log 2>&1; then echo "demo-on-original: PASS (ok)"; else echo "demo-on-original: FAIL (bad seed)"; tail -5 /tmp/seed_eval_orig.log; fi
 rm -f "$demo_path"
 # 2. apply
-if ! git apply SEED_${x}.diff; then echo "patch does not apply"; exit 2; fi
+if ! git apply $S/SEED_${x}.diff; then echo "patch does not apply"; exit 2; fi
 if go build ./... >/tmp/seed_eval_build.log 2>&1 && go test -vet=off -count=1 ./... >/tmp/seed_eval_suite.log 2>&1; then echo "suite-with-change: PASS (ok)"; else echo "suite-with-change: FAIL (bad seed)"; tail -5 /tmp/seed_eval_suite.log /tmp/seed_eval_build.log; fi
-cp SEED_${x}_demo_test.go "$demo_path"
+cp $S/SEED_${x}_demo_test.go "$demo_path"
 if go test -vet=off -count=1 -run "^${run_name}\$" ./$pkgdir/ >/tmp/seed_eval_demo.log 2>&1; then echo "demo-with-change: PASS (bad seed: demo does not fail)"; else echo "demo-with-change: FAIL (ok)"; fi
 rm -f "$demo_path"
 # 3. checks
